@@ -92,8 +92,10 @@ from .asttypes import (
     LtE,
     MatMult,
     Match,
+    MatchAs,
     MatchMapping,
     MatchSequence,
+    MatchStar,
     MatchClass,
     Mod,
     Module,
@@ -209,7 +211,8 @@ _LOC_FUNCS = {  # quick lookup table for FST.loc
 
 _ASTS_LEAF_CLASSDEF      = frozenset([ClassDef])
 _ASTS_LEAF_SCOPE_SYMBOLS = ASTS_LEAF_DEF | ASTS_LEAF_TYPE_PARAM | {Name, arg, AugAssign, Import, ImportFrom, Nonlocal,
-                                                                   Global}  # used in scope_symbols() to optimize walk a tiny bit
+                                                                   Global, ExceptHandler, MatchAs, MatchStar,
+                                                                   MatchMapping}  # used in scope_symbols() to optimize walk a tiny bit
 
 _ASTS_LEAF_EXPR_CHAIN_OP_OR_CTX = (ASTS_LEAF_EXPR_CHAIN | ASTS_LEAF_EXPR_CONTEXT | ASTS_LEAF_BOOLOP | ASTS_LEAF_OPERATOR
                                    | ASTS_LEAF_UNARYOP | ASTS_LEAF_CMPOP)
@@ -3972,6 +3975,18 @@ class FST:
 
             elif a_cls in ASTS_LEAF_TYPE_PARAM:  # these will only be returned for top-level node so their arg is part of our scope
                 name = a.name
+                syms = syms_store
+
+            elif a_cls is ExceptHandler or a_cls is MatchAs or a_cls is MatchStar:  # `except E as name`, pattern capture names, stored as identifiers and not `Name` nodes
+                if not (name := a.name):
+                    continue
+
+                syms = syms_store
+
+            elif a_cls is MatchMapping:  # `{**rest}`
+                if not (name := a.rest):
+                    continue
+
                 syms = syms_store
 
             else:
